@@ -92,10 +92,19 @@ def rule_inventory(F, R, cfg):
     reach, parent = mirq.reachable_from(F, roots)
     statuses = collections.Counter()
     pending_asserts = []
+    by_file = collections.defaultdict(set)
+    for k_, (_c, st_, _r) in keys.items():
+        by_file[k_[0]].add(st_)
+    out_of_scope_files = {f for f, sts in by_file.items() if sts == {"O"}}
     for s in sites:
         k = match_key(s, keys)
         where = "%s:%s" % (rel_file(s["fn"]), s["line"])
         key = mirq.site_key(s)
+        if rel_file(s["fn"]) in out_of_scope_files and (k is None or used[k] >= keys[k][0]):
+            # walk-time code is outside this property (building and querying a glob): a further site there is recorded only
+            R.note("panic-capable construct in out-of-scope walk code, not in the table: %s in %s (%s)" % (s["what"], s["fn"].qname, where))
+            R.count("out_of_scope_unlisted[%s]" % cfg)
+            continue
         if k is None and s["kind"] == "assert":
             # compiler-inserted overflow / bounds assert that is not in the table: deferred (see below)
             pending_asserts.append(s)
